@@ -255,6 +255,7 @@ pub fn finish(ctx: &Ctx, meta: CheckMeta, total: Acc, started: Instant, verif_di
     let mut printed: HashSet<String> = HashSet::new();
     let mut viol_lines = vec![];
     let mut replay_n = 0;
+    let mut replay_per_sig: BTreeMap<String, u32> = BTreeMap::new();
     std::fs::create_dir_all(format!("{verif_dir}/replays")).ok();
     // violations tagged for another property are ignored here (shared workloads)
     let mut other_prop_viol: BTreeMap<String, u64> = BTreeMap::new();
@@ -280,9 +281,11 @@ pub fn finish(ctx: &Ctx, meta: CheckMeta, total: Acc, started: Instant, verif_di
         if known.iter().any(|kf| kf.property == v.prop && kf.signature == v.sig && kf.status == "open") {
             continue;
         }
-        if replay_n >= 20 {
+        let per_sig = replay_per_sig.entry(v.sig.clone()).or_insert(0u32);
+        if *per_sig >= 2 || replay_n >= 80 {
             continue;
         }
+        *per_sig += 1;
         replay_n += 1;
         let path = format!(
             "{verif_dir}/replays/{}-{}-s{}-sh{}-h{}-{}.json",
